@@ -85,38 +85,4 @@ theorem headerLoop_eofOnly_spins (n : Nat) : ∀ (fuel : Nat) (s : IS) (steps : 
     simp [hc, he, getline, hg]
     exact ih _ _ (by simp) (by simp [he])
 
-/-! ### the `);` recovery scan -/
-
-theorem recoverInner_terminates : ∀ (fuel : Nat) (s : IS) (c : Byte) (len steps : Nat),
-    s.meas + 1 ≤ fuel →
-    ∃ s' c' len' steps', recoverInner fuel s c len steps = .ok (s', c', len', steps') ∧
-      s'.meas ≤ s.meas ∧ steps' + s'.meas ≤ steps + s.meas ∧ (s'.good = true → c' = chRParen) := by
-  intro fuel
-  induction fuel with
-  | zero => intro s c len steps h; omega
-  | succ fuel ih =>
-    intro s c len steps h
-    unfold recoverInner
-    by_cases hcond : (s.good && c != chRParen) = true
-    · simp only [hcond, if_true]
-      have hm := get_meas s
-      have hgood : s.good = true := by simp at hcond; exact hcond.1
-      rw [IS.meas_good hgood] at hm h
-      generalize hgt : s.get = g at hm
-      obtain ⟨s1, o⟩ := g
-      simp at hm
-      have hm1 : s1.meas + 1 ≤ s.rest.length + 1 := by omega
-      cases o with
-      | none =>
-        obtain ⟨s', c', l', st', he, h1, h2, h3⟩ := ih s1 c (len + 1) (steps + 1) (by omega)
-        refine ⟨s', c', l', st', by simpa using he, ?_, ?_, h3⟩ <;> rw [IS.meas_good hgood] <;> omega
-      | some c1 =>
-        obtain ⟨s', c', l', st', he, h1, h2, h3⟩ := ih s1 c1 (len + 1) (steps + 1) (by omega)
-        refine ⟨s', c', l', st', by simpa using he, ?_, ?_, h3⟩ <;> rw [IS.meas_good hgood] <;> omega
-    · simp only [hcond]
-      refine ⟨s, c, len, steps, by simp, Nat.le_refl _, Nat.le_refl _, ?_⟩
-      intro hg
-      simp [hg] at hcond
-      exact hcond
-
 end StepModel.P21Safe
